@@ -83,6 +83,11 @@ def check(tier, seed, replay=None):
         rep = json.load(open(replay))["recipe"]
         items = [(rep["ast"], PL.ast_of_enc(rep["input"]), [], [], rep["text"])]
     else:
+        r = tlc("MC_Expr", "MC_Expr.cfg", workers=8, timeout=1800)
+        tlc_ok(r, "MC_Expr")
+        if r.violated:
+            raise ToolError("the specification itself violates %s (MC_Expr)" % r.violated)
+        chk.add_tlc(r, "MC_Expr (Total, WrongType, Laws: every application of 70 functions to every tuple of a 21-value universe)")
         # (i) the documentation pins the specification
         docs = EL.doc_records(table)
         for i, r in enumerate(docs):
@@ -102,7 +107,7 @@ def check(tier, seed, replay=None):
             items.append((X.strip(EP.parse(txt, table)), ("obj", [(X.cps("k"), ("num", "1"))]), [], [], txt))
         chk.notes["small_scope_tuples"] = len(items) - len(docs)
         # (iii) generated typed expressions
-        for i in range(1500 if quick else 150000):
+        for i in range(4000 if quick else 150000):
             inp = X.typed_input(rnd)
             e = X.gen_typed(rnd, table, rnd.choice(["num", "str", "bool", "list:num", "list:str", "obj", "any"]), rnd.choice([1, 2, 3, 4, 5]), X.Env())
             e = X.decorate(e, rnd, table)
